@@ -1,3 +1,57 @@
-From Coq Require Import List.
-Theorem C10_placeholder : True. Proof. exact I. Qed.
-Print Assumptions C10_placeholder.
+(* C10 — derived circuits introduce no learnable parameters
+   Property theorems only: each is closed by `exact <lemma>`; proofs live in the imported files. *)
+From Coq Require Import List ZArith QArith Qcanon Ring_theory Field_theory Permutation Sorted.
+Import ListNotations.
+From CK Require Import Base.
+From CK Require Import Scalar.
+From CK Require Import Tensor.
+From CK Require Import Pexpr.
+From CK Require Import Exec.
+From CK Require Import Ops.
+From CK Require Import Struct.
+From CK Require Import OpsProps.
+Close Scope Qc_scope. Close Scope Q_scope. Close Scope Z_scope. Open Scope nat_scope.
+
+(* every learnable tensor of integrate(c) is a learnable tensor of c *)
+Theorem C10_integrate :
+  forall (Z : list nat) (c c' : circuit),
+         integrate_m Z c = Ok c' -> forall x : nat, In x (learnable_ids c') -> In x (learnable_ids c).
+Proof. exact integrate_no_new_learnable. Qed.
+Print Assumptions C10_integrate.
+
+(* every learnable tensor of multiply(a,b) belongs to a or to b *)
+Theorem C10_multiply :
+  forall a b p : circuit,
+         multiply_m a b = Ok p ->
+         forall x : nat, In x (learnable_ids p) -> In x (learnable_ids a) \/ In x (learnable_ids b).
+Proof. exact multiply_no_new_learnable. Qed.
+Print Assumptions C10_multiply.
+
+(* idem for differentiate *)
+Theorem C10_differentiate :
+  forall (k : nat) (c c' : circuit),
+         differentiate_m k c = Ok c' -> forall x : nat, In x (learnable_ids c') -> In x (learnable_ids c).
+Proof. exact differentiate_no_new_learnable. Qed.
+Print Assumptions C10_differentiate.
+
+(* idem for conjugate *)
+Theorem C10_conjugate :
+  forall c c' : circuit,
+         conjugate_m c = Ok c' -> forall x : nat, In x (learnable_ids c') -> In x (learnable_ids c).
+Proof. exact conjugate_no_new_learnable. Qed.
+Print Assumptions C10_conjugate.
+
+(* idem for evidence *)
+Theorem C10_evidence :
+  forall (obs : asg) (c c' : circuit),
+         evidence_m obs c = Ok c' -> forall x : nat, In x (learnable_ids c') -> In x (learnable_ids c).
+Proof. exact evidence_no_new_learnable. Qed.
+Print Assumptions C10_evidence.
+
+(* every learnable tensor of concatenate(cs) belongs to an operand *)
+Theorem C10_concatenate :
+  forall (cs : list circuit) (c' : circuit),
+         concatenate_m cs = Ok c' ->
+         forall x : nat, In x (learnable_ids c') -> exists c : circuit, In c cs /\ In x (learnable_ids c).
+Proof. exact concatenate_no_new_learnable. Qed.
+Print Assumptions C10_concatenate.
